@@ -97,7 +97,7 @@ def run(ctx):
         replay(ctx, res, cat, cls, 1)
     tlc.cleanup(res.workdir)
     # every class: construct, copy, compare (depth 2) and class-differing pairs
-    res = tlc.run('MC_Objects', cfg_text=c17.cfg('ClsQuick' if quick else 'ClsAll', 'ActsCopyOnly', 2, 2, invs=invs), dump=True, tag='c16')
+    res = tlc.run('MC_Objects', cfg_text=c17.cfg('ClsQuickCopy' if quick else 'ClsAll', 'ActsCopyOnly', 2, 2, invs=invs), dump=True, tag='c16')
     ctx.tlc(res, 'MC_Objects all classes: construct then copy')
     if res.violated:
         ctx.violation(f'C16|model|{res.violated}', f'Objects.tla: invariant {res.violated} fails in the model', {'trace': res.trace[-2:]})
